@@ -292,16 +292,18 @@ func InnermostSpineFrame(stack string) string {
 // Parent side
 
 type Aggregate struct {
-	Evaluations int
-	Shapes      map[string]bool // distinct non-trivial shapes
-	Counts      map[string]int64
-	Sets        map[string]map[string]bool
-	Samples     []any
-	Viol        map[string][]witness // by signature
-	Inconcl     []string
-	Events      int64
-	PerPart     map[string]int
-	RaceReports []RaceReport
+	Evaluations       int
+	Shapes            map[string]bool // distinct non-trivial shapes
+	Counts            map[string]int64
+	Sets              map[string]map[string]bool
+	Samples           []any
+	Viol              map[string][]witness // by signature
+	Inconcl           []string
+	Events            int64
+	PerPart           map[string]int
+	RaceReports       []RaceReport
+	Hangs             int // workers that stopped making progress (violations and inconclusive ones)
+	SkippedAfterHangs int
 }
 
 type witness struct {
@@ -457,16 +459,17 @@ func ParentMain(o Options) int {
 	// evidence
 	distinct := len(agg.Shapes)
 	cov := map[string]any{
-		"evaluations":               agg.Evaluations,
-		"distinct_nontrivial":       distinct,
-		"rule":                      ck.Rule,
-		"samples":                   agg.Samples,
-		"events_observed":           agg.Events,
-		"cases_per_part":            agg.PerPart,
-		"counts":                    agg.Counts,
-		"inconclusive_cases":        len(agg.Inconcl),
-		"known_findings_reobserved": known,
-		"violation_signatures":      sigs,
+		"evaluations":                        agg.Evaluations,
+		"distinct_nontrivial":                distinct,
+		"rule":                               ck.Rule,
+		"samples":                            agg.Samples,
+		"events_observed":                    agg.Events,
+		"cases_per_part":                     agg.PerPart,
+		"counts":                             agg.Counts,
+		"inconclusive_cases":                 len(agg.Inconcl),
+		"known_findings_reobserved":          known,
+		"cases_skipped_after_repeated_hangs": agg.SkippedAfterHangs,
+		"violation_signatures":               sigs,
 	}
 	setSizes := map[string]any{}
 	for k, m := range agg.Sets {
@@ -625,6 +628,18 @@ func runPart(o Options, ck *Check, p *Part, work string, agg *Aggregate) {
 		go func(w int) {
 			defer wg.Done()
 			for j := range jobc {
+				// every hang costs the quiet period; once a part has produced several, the verdict is in and
+				// the remaining cases of that part are skipped (the run fails anyway)
+				mu.Lock()
+				tooMany := agg.Hangs >= 6
+				if tooMany {
+					agg.SkippedAfterHangs += j.to - j.from
+				}
+				mu.Unlock()
+				if tooMany {
+					pending.Done()
+					continue
+				}
 				rest := runJob(o, ck, p, bin, procs, quiet, work, w, j, agg, &mu)
 				if rest != nil {
 					pending.Add(1)
@@ -770,6 +785,9 @@ loop:
 	}
 	res := CaseResult{Part: p.Name, Case: culprit}
 	if hung {
+		mu.Lock()
+		agg.Hangs++
+		mu.Unlock()
 		sig, blocked := classifyHang(stderrText)
 		if blocked {
 			res.Viol = []Violation{{Sig: "hang@" + sig, Detail: "no progress for " + quiet.String() + "; goroutine dump:\n" + tail}}
